@@ -6,6 +6,7 @@ W3 blender: visible backdrop -> merge(merge(N, X, _), X, _), N = normal(b,s,o), 
 W4 normal: back_a == 0 -> from_rgba_i32(src rgb, mul_un8(src_a, opacity)); src_a == 0 -> backdrop; general alpha is a
    function of (back_a, src_a, opacity) only.
 W5 merge: alpha = blend8(back_a, src_a, opacity) (or the zero pixel under res_a == 0); invisible operand -> other's colour.
+W6 both rasterisers call the blend function with mul_un8(layer opacity, cel opacity) (the 'opacity product' of the statement).
 The numeric helper facts H1 (blend8(a,a,o) == a) and H2 (merge(c,c,o) == c) and the 0..255 range clause are NOT decided.
 """
 import q
@@ -58,7 +59,8 @@ def edge_defs(body, sw, succ, local=0):
 def run(ctx):
     fx = ctx.fx
     ctx.rules = ['W1 mode = blender(baseline)', 'W2 baseline tails into normal with the source alpha', 'W3 blender wiring',
-                 'W4 normal edges and alpha origin', 'W5 merge alpha and invisible-operand edges']
+                 'W4 normal edges and alpha origin', 'W5 merge alpha and invisible-operand edges',
+                 'W6 the opacity handed to the blend function is the layer x cel product on every rasterising path']
     ctx.assumptions += ['H1: blend8(a, a, o) == a for all o (arithmetic fact about blend8; not decided statically)',
                         'H2: merge(c, c, o) == c for a visible colour c (follows from H1; not decided statically)']
     ctx.explanation = (
@@ -252,4 +254,6 @@ def run(ctx):
     ctx.extra['blend_rs_truncating_casts_listed_not_judged'] = casts
     ctx.extra['blend_rs_assert_sites_listed_not_judged'] = asserts
     ctx.note('range clause not decided: %d truncating casts and %d assert/debug_assert sites in blend.rs depend on it' % (casts, asserts))
-    ctx.samples = [i for i in ctx.instances if i['rule'] in ('W2', 'W3', 'W4', 'W5')][:16]
+    # W6: the laws are stated over (layer opacity, cel opacity); both rasterisers must hand their product to the blend function
+    render.opacity_and_mode(ctx, rule_o='W6', rule_m=None)
+    ctx.samples = [i for i in ctx.instances if i['rule'] in ('W2', 'W3', 'W4', 'W5', 'W6')][:16]
